@@ -759,6 +759,11 @@ type LayoutCase struct {
 	OverlapSentences bool     `json:"overlap_sentences"`
 	SectionContext   bool     `json:"include_section_context"`
 	Labels           []string `json:"labels,omitempty"`
+	// Lists: bullet lists that follow the paragraphs (items of a few plain words; the last item of a list, like a
+	// paragraph, may end with a colon - an introduction to what follows). LooseLists switches
+	// PreserveListCoherence off: lists are ordinary content and MaxChunkSize binds them too.
+	Lists      [][]string `json:"lists,omitempty"`
+	LooseLists bool       `json:"loose_lists,omitempty"`
 }
 
 func (c LayoutCase) config() rag.ChunkerConfig {
@@ -769,6 +774,9 @@ func (c LayoutCase) config() rag.ChunkerConfig {
 	cfg.OverlapSize = c.OverlapSize
 	cfg.OverlapSentences = c.OverlapSentences
 	cfg.IncludeSectionContext = c.SectionContext
+	if c.LooseLists {
+		cfg.PreserveListCoherence = false
+	}
 	return cfg
 }
 
@@ -782,12 +790,30 @@ func (c LayoutCase) doc() *model.Document {
 	for _, s := range c.Paras {
 		p.Layout.Paragraphs = append(p.Layout.Paragraphs, model.ParagraphInfo{Text: s})
 	}
+	for _, l := range c.Lists {
+		li := model.ListInfo{Type: model.ListTypeBullet}
+		for _, it := range l {
+			li.Items = append(li.Items, model.ListItem{Text: it})
+		}
+		p.Layout.Lists = append(p.Layout.Lists, li)
+	}
 	doc.AddPage(p)
 	return doc
 }
 
-func checkLayoutInner(c LayoutCase) error {
+// content is the text the chunks have to hold: the paragraphs, then the items of the lists.
+func (c LayoutCase) content() string {
 	all := strings.Join(c.Paras, "\n\n")
+	for _, l := range c.Lists {
+		for _, it := range l {
+			all += "\n- " + it
+		}
+	}
+	return all
+}
+
+func checkLayoutInner(c LayoutCase) error {
+	all := c.content()
 	if !utf8.ValidString(all) {
 		return fmt.Errorf("generator bug: input is not valid UTF-8")
 	}
@@ -830,7 +856,7 @@ func checkLayoutInner(c LayoutCase) error {
 	if got, want := squeeze(strings.Join(content, " ")), squeeze(all); got != want {
 		return fmt.Errorf("Chunker.Chunk: non-white-space characters not conserved: %s", diffAt(got, want))
 	}
-	if inBoundDomain(sc, boundText) {
+	if inBoundDomain(sc, boundText) && (len(c.Lists) == 0 || c.LooseLists) {
 		for i, p := range content {
 			if n := utf8.RuneCountInString(strings.TrimSpace(p)); n > c.Max {
 				return fmt.Errorf("Chunker.Chunk: chunk %d of %d has %d runes (%d bytes) > MaxChunkSize %d although every paragraph has a space every 50 bytes at most: %s",
@@ -909,6 +935,35 @@ func genLayout(t *rapid.T) LayoutCase {
 				seen[u] = true
 				c.Labels = append(c.Labels, "class:"+u)
 			}
+		}
+	}
+	if rapid.IntRange(0, 2).Draw(t, "hasLists") == 0 {
+		colon := func(label string) string {
+			if rapid.IntRange(0, 4).Draw(t, label) < 2 {
+				return ":"
+			}
+			return ""
+		}
+		if last := len(c.Paras) - 1; !strings.HasSuffix(c.Paras[last], ":") {
+			c.Paras[last] += colon("introParagraph")
+		}
+		for l, nl := 0, rapid.IntRange(1, 3).Draw(t, "lists"); l < nl; l++ {
+			var items []string
+			for k, ni := 0, rapid.IntRange(1, 5).Draw(t, "items"); k < ni; k++ {
+				w := rapid.IntRange(1, 9).Draw(t, "itemWords")
+				var ws []string
+				for j := 0; j < w; j++ {
+					ws = append(ws, txt.Tame(t, "itemWord", 2, 9))
+				}
+				items = append(items, strings.Join(ws, " "))
+			}
+			items[len(items)-1] += colon("introItem")
+			c.Lists = append(c.Lists, items)
+		}
+		c.LooseLists = rapid.Bool().Draw(t, "looseLists")
+		c.Labels = append(c.Labels, "lists")
+		if c.LooseLists {
+			c.Labels = append(c.Labels, "lists:not-atomic")
 		}
 	}
 	if bound {
